@@ -183,14 +183,16 @@ namespace rkcommon {
       return a.ptr < b.ptr;
     }
 
-    template <typename T>
-    bool operator==(const IntrusivePtr<T> &a, const IntrusivePtr<T> &b)
+    // NOTE: also for handles of different (related) pointee types, which would
+    //       otherwise be compared through operator bool()
+    template <typename T, typename U>
+    bool operator==(const IntrusivePtr<T> &a, const IntrusivePtr<U> &b)
     {
       return a.ptr == b.ptr;
     }
 
-    template <typename T>
-    bool operator!=(const IntrusivePtr<T> &a, const IntrusivePtr<T> &b)
+    template <typename T, typename U>
+    bool operator!=(const IntrusivePtr<T> &a, const IntrusivePtr<U> &b)
     {
       return a.ptr != b.ptr;
     }
